@@ -1001,6 +1001,7 @@ func genC09(r *Runner) {
 	c09CatalogueChains(r)
 	c09SerialLengths(r)
 	c09RevocationBehaviours(r)
+	c09EndlessBodies(r)
 }
 
 // c09RevocationBehaviours: every authentic answer the revocation generators know — each OCSP answer class, each CRL shape
@@ -1179,3 +1180,138 @@ func c09Revoke(chain []*x509.Certificate, p purpose.Purpose) {
 
 func mustECKey(id string) *ecdsa.PrivateKey { return getKey(id).Priv.(*ecdsa.PrivateKey) }
 func mustRSAKey(id string) *rsa.PrivateKey  { return getKey(id).Priv.(*rsa.PrivateKey) }
+
+// endlessBody never ends by itself: it delivers its prefix and then zeros for as long as somebody reads — until the case that
+// owns it is over (stop), so that a reader which did get stuck does not spin for the rest of the run
+type endlessBody struct {
+	prefix []byte
+	stop   chan struct{}
+}
+
+func (b *endlessBody) Read(p []byte) (int, error) {
+	select {
+	case <-b.stop:
+		return 0, errors.New("the case is over")
+	default:
+	}
+	if len(b.prefix) > 0 {
+		n := copy(p, b.prefix)
+		b.prefix = b.prefix[n:]
+		return n, nil
+	}
+	for i := range p {
+		p[i] = 0
+	}
+	return len(p), nil
+}
+
+func (b *endlessBody) Close() error { return nil }
+
+// c09EndlessBodies: "never blocks once the transport has answered, whatever bytes the contacted servers return" — a reply under
+// every kind of status whose body never ends (after nothing, after garbage, after a whole valid answer), announced with every
+// kind of Content-Length, from the responder, from the distribution point, from the delta location; through the real fetcher
+func c09EndlessBodies(r *Runner) {
+	pki := &revoPKI{other: getOtherCA(), delegates: map[string]*Issued{}, leaves: map[string]*Issued{}}
+	cc := chainCase{label: "c09-endless", levels: []levelSpec{{ocspURLs: []string{"http://ocsp.endless.test/r"}, crlURLs: []string{"http://crl.endless.test/l.crl"}}}}
+	iss := buildRevoChain(&cc)
+	now := time.Now()
+	type job struct {
+		who    string // which server misbehaves: ocsp | crl | delta
+		status int
+		prefix string // nothing | garbage | valid
+		cl     int64
+	}
+	var jobs []job
+	for _, who := range []string{"ocsp", "crl", "delta"} {
+		for _, st := range []int{200, 201, 204, 301, 400, 404, 500, 503} {
+			for _, pf := range []string{"nothing", "garbage", "valid"} {
+				for _, cl := range []int64{-1, 0, 100, 1 << 40} {
+					jobs = append(jobs, job{who, st, pf, cl})
+				}
+			}
+		}
+	}
+	var mu sync.Mutex
+	total := 0
+	var found []*Case
+	runJobs(len(jobs), func(i int) {
+		j := jobs[i]
+		ocspURLs := []string{"http://ocsp.endless.test/r"}
+		if j.who != "ocsp" {
+			ocspURLs = nil
+		}
+		leaf := pki.leaf(iss[1], ocspURLs, []string{"http://crl.endless.test/l.crl"}, false, 0, false)
+		chain := []*x509.Certificate{leaf.Cert, iss[1].Cert}
+		octx := &ocspCtx{pki: pki, issuer: iss[1], leaf: leaf, now: now}
+		cctx := &crlCtx{pki: pki, issuer: iss[1], leaf: leaf, now: now}
+		goodOCSP := octx.behaviour("good").body
+		bb := cctx.behaviour("delta-ok")
+		if j.who == "crl" {
+			bb = cctx.behaviour("clean")
+		}
+		stop := make(chan struct{})
+		tr := roundTripFunc(func(req *http.Request) (*http.Response, error) {
+			var valid []byte
+			var mine bool
+			switch {
+			case req.URL.Host == "ocsp.endless.test":
+				valid, mine = goodOCSP, j.who == "ocsp"
+			case req.URL.String() == "http://crl.endless.test/l.crl":
+				valid, mine = bb.bundle.BaseCRL.Raw, j.who == "crl"
+			default:
+				if bb.bundle.DeltaCRL == nil {
+					return httpReply(req, 404, "text/plain", []byte("no such list")), nil
+				}
+				valid, mine = bb.bundle.DeltaCRL.Raw, j.who == "delta"
+			}
+			if !mine {
+				return httpReply(req, 200, "application/octet-stream", valid), nil
+			}
+			var prefix []byte
+			switch j.prefix {
+			case "garbage":
+				prefix = []byte("<html>an error page that never ends")
+			case "valid":
+				prefix = append([]byte{}, valid...)
+			}
+			return &http.Response{StatusCode: j.status, Status: fmt.Sprintf("%d %s", j.status, http.StatusText(j.status)), Proto: "HTTP/1.1", ProtoMajor: 1, ProtoMinor: 1,
+				Header: http.Header{}, Body: &endlessBody{prefix: prefix, stop: stop}, ContentLength: j.cl, Request: req}, nil
+		})
+		o := guarded(10*time.Second, func() error {
+			client := &http.Client{Transport: tr}
+			hf, err := corecrl.NewHTTPFetcher(client)
+			if err != nil {
+				return err
+			}
+			v, err := revocation.NewWithOptions(revocation.Options{OCSPHTTPClient: client, CRLFetcher: hf, CertChainPurpose: purpose.CodeSigning})
+			if err != nil {
+				return err
+			}
+			_, _ = v.ValidateContext(context.Background(), revocation.ValidateContextOptions{CertChain: chain, AuthenticSigningTime: baseTime()})
+			if j.who == "ocsp" {
+				_, _ = revocsp.CheckStatus(revocsp.Options{CertChain: chain, SigningTime: baseTime(), HTTPClient: client, CertChainPurpose: purpose.CodeSigning})
+			}
+			return nil
+		})
+		close(stop)
+		mu.Lock()
+		total++
+		if o.Outcome == "panic" || o.Outcome == "hang" {
+			clause := map[string]string{"panic": "panic_on_the_calling_goroutine", "hang": "does_not_return_once_the_transport_has_answered"}[o.Outcome]
+			c := &Case{ID: fmt.Sprintf("endless-body-%s-%d-%s-cl%d", j.who, j.status, j.prefix, j.cl), K: "total",
+				In:   map[string]any{"target": "endless-body", "server": j.who, "status": j.status, "body_starts_with": j.prefix, "content_length": j.cl},
+				Impl: map[string]any{"outcome": o.Outcome, "_detail": o.Detail}, Class: "endless-body/" + o.Outcome,
+				Replay: map[string]any{"chain_pem": pemChain(chain), "misbehaving_server": j.who, "status": j.status, "body": "starts with " + j.prefix + ", then zeros without end",
+					"content_length_announced": j.cl, "detail": o.Detail}}
+			c.local, c.localClause = true, clause
+			found = append(found, c)
+		}
+		mu.Unlock()
+	})
+	sumc := &Case{ID: "endless-bodies", K: "total", In: map[string]any{"target": "endless-body", "cases": total}, Impl: map[string]any{"outcome": "terminated"}, Class: "endless-body"}
+	sumc.local, sumc.weight = true, total
+	r.Submit(sumc)
+	for _, c := range found {
+		r.Submit(c)
+	}
+}
